@@ -99,6 +99,88 @@ theorem export_import_crdt_id_partial (g t listing : List Pin) (hw : ∀ p ∈ g
   obtain ⟨js, h1, h2⟩ := export_import_id_partial g t listing hw ho hl
   exact ⟨js, h1, by rw [importStateCrdt_eq]; exact h2⟩
 
+/-! ## the import stream, document by document -/
+
+/-- importing two streams one after the other is importing their concatenation (concatenated exports) -/
+theorem importInto_append : ∀ (a b : List JPin) (m : PinMap),
+    importInto m (a ++ b) = (importInto m a).bind (fun m' => importInto m' b) := by
+  intro a
+  induction a with
+  | nil => intro b m; rfl
+  | cons j t ih =>
+    intro b m
+    simp only [List.cons_append, importInto]
+    cases jdec j with
+    | none => rfl
+    | some p => exact ih b _
+
+/-- the import keeps the representation invariant -/
+theorem importInto_ss : ∀ (js : List JPin) (m r : PinMap), SS m → importInto m js = some r → SS r := by
+  intro js
+  induction js with
+  | nil => intro m r hm h; cases h; exact hm
+  | cons j t ih =>
+    intro m r hm h
+    simp only [importInto] at h
+    cases hj : jdec j with
+    | none => rw [hj] at h; cases h
+    | some p => rw [hj] at h; exact ih _ r (ss_put hm) h
+
+/-- **import_dup_last_wins.** Of several documents with the same cid the LAST one is what the state holds: if no
+    document after `j` names the cid of `j`, the imported state holds exactly `j`'s pin for that cid. -/
+theorem import_dup_last_wins (pre post : List JPin) (j : JPin) (p : Pin) (m r : PinMap) (hm : SS m)
+    (hj : jdec j = some p) (hpost : ∀ j' ∈ post, ∀ p', jdec j' = some p' → p'.cid ≠ p.cid)
+    (h : importInto m (pre ++ j :: post) = some r) :
+    store p ∈ r ∧ ∀ q ∈ r, q.cid = p.cid → q = store p := by
+  rw [importInto_append] at h
+  cases hpre : importInto m pre with
+  | none => rw [hpre] at h; cases h
+  | some m1 =>
+    rw [hpre] at h
+    simp only [Option.bind_some, importInto, hj] at h
+    have hm1 : SS m1 := importInto_ss pre m m1 hm hpre
+    have hcid : (store p).cid = p.cid := rfl
+    -- after `j`: the state holds store p as the only pin with that cid; later documents keep it
+    have key : ∀ (post : List JPin) (m2 r : PinMap), SS m2 → (store p ∈ m2 ∧ ∀ q ∈ m2, q.cid = p.cid → q = store p) →
+        (∀ j' ∈ post, ∀ p', jdec j' = some p' → p'.cid ≠ p.cid) → importInto m2 post = some r →
+        store p ∈ r ∧ ∀ q ∈ r, q.cid = p.cid → q = store p := by
+      intro post
+      induction post with
+      | nil => intro m2 r _ hin _ h; cases h; exact hin
+      | cons j' t ih =>
+        intro m2 r hs hin hp h
+        simp only [importInto] at h
+        cases hj' : jdec j' with
+        | none => rw [hj'] at h; cases h
+        | some p' =>
+          rw [hj'] at h
+          have hne : p'.cid ≠ p.cid := hp j' List.mem_cons_self p' hj'
+          refine ih _ r (ss_put hs) ⟨?_, ?_⟩ (fun x hx => hp x (List.mem_cons_of_mem _ hx)) h
+          · exact (mem_put hs).2 (Or.inr ⟨hin.1, fun hc => hne (show (store p').cid = (store p).cid from hc.symm)⟩)
+          · intro q hq hqc
+            rcases (mem_put hs).1 hq with rfl | ⟨hq', _⟩
+            · exact absurd hqc hne
+            · exact hin.2 q hq' hqc
+    refine key post _ r (ss_put hm1) ⟨(mem_put hm1).2 (Or.inl rfl), ?_⟩ hpost h
+    intro q hq hqc
+    rcases (mem_put hm1).1 hq with rfl | ⟨_, hne⟩
+    · rfl
+    · exact absurd hqc hne
+
+/-- **import_prefix_on_error.** A stream that breaks (a document that does not decode, or bytes that are not JSON after
+    complete documents) makes `state import` fail, and NOTHING of the documents read before the break is kept: the
+    manager has cleaned the target and saves/commits only at the end (raft: the data folder is gone, see
+    `import_failure_leaves`; crdt: the batch is dropped). -/
+theorem import_prefix_on_error (prior : PinMap) (stream : List JPin) (garbage : Bool)
+    (h : importInto [] stream = none ∨ garbage = true) :
+    importState prior stream garbage = (.err, []) ∧ importStateCrdt prior stream garbage = (.err, []) := by
+  rw [importStateCrdt_eq]
+  unfold importState
+  rcases h with h | h
+  · rw [h]; exact ⟨rfl, rfl⟩
+  · subst h
+    cases importInto [] stream <;> exact ⟨rfl, rfl⟩
+
 /-! ## rotation -/
 
 /-- Every step of every operation sequence meets the rotation clauses, for every retention ≥ 1
